@@ -780,6 +780,9 @@ func runC08(c *Ctx) {
 		if only == "lex" || only == "lex:extra" {
 			c08LexExtra(c)
 		}
+		if only == "lex" || only == "lex:parse" {
+			c08ParserTrace(c)
+		}
 		return
 	}
 
@@ -822,6 +825,8 @@ func runC08(c *Ctx) {
 	c08Actions(c)
 	// ---- 3c. identifier recogniser; white-space set ----
 	c08LexExtra(c)
+	// ---- 3d. the goyacc driver: debug trace of the real parser vs the Lean model of the LR loop ----
+	c08ParserTrace(c)
 	tTok := time.Since(t0)
 
 	<-pTree.done
